@@ -4,7 +4,7 @@
 From NDN Require Import Base.Prelude Base.Text Model.TlvVar Model.Name Model.Tlv Model.Cert Spec.CertSpec
   Generated.ConstsCert.
 Local Open Scope N_scope.
-Set Default Timeout 120.
+Set Default Timeout 900.
 
 Arguments N.of_nat : simpl never.
 Arguments N.to_nat : simpl never.
